@@ -28,6 +28,9 @@ pub enum Form {
     Nested,
     /// `$(...)` inside a pipeline stage
     InStage,
+    /// the shell's standard output (1), standard input (0) or both are closed
+    /// while the substitution runs: its pipe lands on the low descriptors
+    Closed(u8),
 }
 
 #[derive(Clone, Debug, Serialize, Deserialize, PartialEq)]
@@ -215,7 +218,8 @@ pub fn generate(rng: &mut Rng, tier: Tier) -> Case {
                 alpha,
                 chunk,
                 trailing: rng.below(4),
-                form: match rng.below(6) {
+                form: match rng.below(7) {
+                    6 => Form::Closed(rng.range(1, 3) as u8),
                     0 | 1 => Form::Piped(*rng.pick(&bufs())),
                     2 => Form::Nested,
                     3 => Form::InStage,
@@ -373,6 +377,17 @@ fn render_body(c: &Case) -> (String, Option<String>) {
                     format!("x=$({genc} | relay {b})\necho \"?=$?\"\nstrhash \"$x\"\n"),
                     Some(format!("?=0\n{}", summary(&stripped))),
                 ),
+                Form::Closed(which) => {
+                    let closing = match which {
+                        1 => ">&-",
+                        2 => "<&-",
+                        _ => "<&- >&-",
+                    };
+                    (
+                        format!("{{ x=$({genc}); echo \"?=$?\" >&3; strhash \"$x\" >&3; }} 3>&1 {closing}\n"),
+                        Some(format!("?=0\n{}", summary(&stripped))),
+                    )
+                }
                 Form::Nested => {
                     let mut v = b"<".to_vec();
                     v.extend_from_slice(&stripped);
